@@ -408,6 +408,18 @@ impl ZchState {
                     .zchd_prioritized_chords
                     .clone_from(&a.zch_followups);
                 let mut released_sft = false;
+                // When a common prefix of the previous activation is kept on screen, the first
+                // character (the one that a held shift capitalizes) is already typed: release shift
+                // before typing the remainder, as is done after the first character otherwise.
+                if common_prefix_len_from_past_activation > 0 && !self.zchd.zchd_is_caps_word_active {
+                    released_sft = true;
+                    if self.zchd.zchd_is_lsft_active {
+                        kb.release_key(OsCode::KEY_LEFTSHIFT)?;
+                    }
+                    if self.zchd.zchd_is_rsft_active {
+                        kb.release_key(OsCode::KEY_RIGHTSHIFT)?;
+                    }
+                }
                 #[cfg(feature = "interception_driver")]
                 let mut send_count = 0;
                 if self.zchd.zchd_is_altgr_active && !a.zch_output.is_empty() {
